@@ -169,6 +169,9 @@ def opaque_attr(ex, obj: VOpaque, name, fr):
     h = ex.cfg.lib_overrides.get(("opaque_attr", obj.kind))
     if h is not None:
         return h(ex, obj, name, fr)
+    if obj.kind == "bitgen" and name == "state":
+        from . import arrays
+        return arrays.bitgen_get_state(ex)
     raise Unsupported(f"attribute {name!r} of boundary object {obj.kind}")
 
 
@@ -178,6 +181,9 @@ def opaque_setattr(ex, obj, name, val, fr):
     h = ex.cfg.lib_overrides.get(("opaque_setattr", obj.kind))
     if h is not None:
         return h(ex, obj, name, val, fr)
+    if obj.kind == "bitgen" and name == "state":
+        from . import arrays
+        return arrays.bitgen_set_state(ex, val)
     raise Unsupported(f"store to {name!r} of boundary object {obj.kind}")
 
 
